@@ -155,6 +155,17 @@ class Ctx:
 
     # ----- end -----------------------------------------------------------
     def finish(self):
+        # safety net: an obligation that is no longer discharged is never silent.  (A run whose failures were all
+        # attributed to known-finding keys but whose correspondence or proof obligations broke is a different
+        # violation of the property than the one the file lists.)
+        undischarged = [(n, note) for n, ok, note in self.obl if not ok]
+        if undischarged and not self.violations:
+            self.fail("obligations/undischarged",
+                      "%d obligation(s) no longer discharged and no failing input attributed: %s" % (
+                          len(undischarged), "; ".join("%s [%s]" % (n, str(note)[:120]) for n, note in undischarged[:4])),
+                      dict(kind="obligations-undischarged",
+                           obligations=[dict(name=n, note=str(note)[:2000]) for n, note in undischarged]),
+                      no_input=True)
         cov = self.cov
         cov["obligations"] = len(self.obl)
         cov["discharged"] = sum(1 for o in self.obl if o[1])
